@@ -80,6 +80,7 @@ func (c *checker) hook(e *sim.Ev) {
 	case "h.config.append":
 		commit, latest, committed, start := e.A, e.B, e.C, e.D
 		c.cov("config-append")
+		c.ext.configAppend(key)
 		if latest != committed {
 			c.violate("C07", "config-change-while-uncommitted", e.Seq, "%s appends a configuration while the previous one (index %d) is not committed (committed configuration index %d)", key, latest, committed)
 		}
@@ -148,7 +149,11 @@ func (c *checker) voterMajorityHolds(i, term uint64, payload string) (bool, map[
 	}
 	var all []cc
 	for n, s := range c.srv {
+		S := s.disk.maxSnapIndex()
 		for j, p := range s.disk.cfgs {
+			if j <= S {
+				continue // superseded by the server's snapshot (whose configuration is added below)
+			}
 			if j > i || holders[n] {
 				all = append(all, cc{j, p})
 			}
